@@ -82,6 +82,21 @@ namespace
         bool operator<(const Nest &o) const { return v != o.v ? v < o.v : kids.size() < o.kids.size(); }
     };
     int val_of(const Nest &t) { return t.kids.empty() ? t.v : -100000 - (int)t.kids.size(); }
+    // an element that points into itself (a small-buffer string, a node with an embedded sentinel): trivial destructor, but
+    // copying it bit by bit leaves the pointer aimed at the old place
+    struct SelfRef
+    {
+        int v;
+        const int *self;
+        SelfRef(int x = 0) : v(x), self(&v) {}
+        SelfRef(const SelfRef &o) : v(o.v), self(&v) {}
+        SelfRef &operator=(const SelfRef &o) { v = o.v; return *this; }
+        bool operator==(const SelfRef &o) const { return v == o.v; }
+        bool operator!=(const SelfRef &o) const { return v != o.v; }
+        bool operator<(const SelfRef &o) const { return v < o.v; }
+    };
+    static_assert(std::is_trivially_destructible<SelfRef>::value && !std::is_trivially_copyable<SelfRef>::value, "SelfRef: trivial destructor, real copy");
+    int val_of(const SelfRef &t) { return t.self == &t.v ? t.v : -777777; } // (an element whose pointer aims elsewhere reads as -777777)
     template <class E> long dtor_count() { return -1; }
     template <> long dtor_count<Handle>() { return Handle::dtors; }
 
@@ -472,8 +487,23 @@ namespace
                     case V_CTOR_N:
                     {
                         size_t n = (size_t)mod(arg(o, 2), 12);
+                        // sizes around a multiple of 256, then appended to: the vector is exactly full when the 256th / 512th element comes
+                        bool around256 = mod(arg(o, 3), 24) == 7;
+                        if (around256)
+                        {
+                            static const size_t B[6] = {254, 255, 256, 257, 511, 512};
+                            n = B[mod(arg(o, 2), 6)];
+                            probe("vector_around_256_elements");
+                        }
                         v[u].reset(new Vec(n));
                         m[u].assign(n, 0);
+                        if (around256)
+                            for (int j = 0; j < 3; j++)
+                            {
+                                if (j & 1) v[u]->push_back(E(val + j));
+                                else v[u]->emplace_back(val + j);
+                                m[u].push_back(val + j);
+                            }
                         break;
                     }
                     case V_CTOR_RANGE:
@@ -840,6 +870,7 @@ int main(int argc, char **argv)
     VecWorld<Loose> wl(PROP_WORLD "<trivially-copyable-with-own-equality>", false);
     VecWorld<Handle> wh(PROP_WORLD "<implicit-copy-with-own-destructor>", false);
     VecWorld<Nest> wn(PROP_WORLD "<value-constructible-from-a-list-of-itself>", false);
+    VecWorld<SelfRef> wsr(PROP_WORLD "<element-pointing-into-itself>", false);
     Harness h;
     h.property = "C02";
     h.worlds = {&wi, &wt};
@@ -855,6 +886,7 @@ int main(int argc, char **argv)
     h.worlds.push_back(&wn);
     BigVecWorld wb;
     h.worlds.push_back(&wb);
+    h.worlds.push_back(&wsr);
     h.stub = {"SimAlloc behind the Allocator parameter (exact-size blocks, seed-chosen fill and reuse)", "Tracked element type (lifetime registry)", "std::vector / std::map / std::set reference"};
     return harness_main(h, argc, argv);
 }
